@@ -271,12 +271,32 @@ func inCoreShape(a any) bool {
 	return true
 }
 
+// fixedPrograms: families that are part of every run, whatever the seed.
+// JSON texts that are NOT one well-formed document - a document followed by a closing bracket or brace, by a separator, by a
+// second document, by letters; documents cut short; near-misses of the literals - through fromjson in its three error-handling
+// shapes.  The reference engine fails on every one of them, and fails at that point of the output sequence.
+func fixedPrograms() []string {
+	texts := []string{"[1]]", "{\"a\":1}}", "1 ]", "[1] }x", "[1]\n]", "{\"a\":[1,2]}}", "[[1]]]", "1}", "\"s\"]", "null]", "[1],", "[1]:", "[1] [2]", "1 2", "{}{}", "[1]x", "[1,]", "[,1]", "[1 2]",
+		"{\"a\" 1}", "{\"a\":1,}", "{1:2}", "nul", "tru", "nulll", "NaN", "nan", "01", "1e", "-", "+1", ".5", "\"a", "[", "{", "]", "}", "", " ", "[1]\n\n", " [1] ", "\t{\"a\":1}\n", "[1]\u0000", "'a'"}
+	var ps []string
+	for _, t := range texts {
+		b, _ := json.Marshal(t)
+		lit := string(b)
+		ps = append(ps, "1, ("+lit+" | fromjson), 2", "[("+lit+", \"[2]\") | fromjson?]", "try ("+lit+" | fromjson) catch \"bad\"")
+	}
+	return ps
+}
+
 func generate(n int) []tcase {
 	g := &pgen{r: rand.New(rand.NewSource(kit.Seed()*104729 + 7))}
 	var cases []tcase
 	seen := map[string]bool{}
+	fixed := fixedPrograms()
 	for tries := 0; len(cases) < n && tries < n*50; tries++ {
 		p := g.program()
+		if tries < len(fixed) {
+			p = fixed[tries]
+		}
 		if seen[p] {
 			continue
 		}
